@@ -101,14 +101,14 @@ def make_instances(ctx):
 
 
 def run(ctx):
-    if not _tr.get("ok"):
-        return
     _lap(ctx, "coq+build")
-    atomic = _tr["atomic"]
-    ctx.note("translator: %s; anchors %s" % (_tr["detail"], _tr["anchors"]))
+    # atomic: True / False as declared in the source; None when the translator did not recognise the code
+    # (tie already reported broken in prepare; the implementation is still searched for a failing trial)
+    atomic = _tr["atomic"] if _tr.get("ok") else None
+    ctx.note("translator: %s; anchors %s" % (_tr.get("detail"), _tr.get("anchors")))
     for n in _tr.get("notes", []):
         ctx.note("translator: " + n)
-    if not _tr["polls_lookahead"]:
+    if _tr.get("ok") and not _tr["polls_lookahead"]:
         ctx.note("liveness gap (allowed by C25): LookaheadSMTSolver::solve_ never polls the stop flag; a request during a lookahead "
                  "search is ignored until the search ends (theorem lookahead_ignores_stop)")
     exe, log = vlib.build_extracted("conc")
@@ -116,7 +116,7 @@ def run(ctx):
         ctx.tie_broken("extraction-conc", log)
         return
     rc, out = vlib.sh(exe, input="consts\n", timeout=60)
-    if ("atomic=%s" % ("true" if atomic else "false")) not in out:
+    if atomic is not None and ("atomic=%s" % ("true" if atomic else "false")) not in out:
         ctx.tie_broken("gen-stopflag-stale", "extracted constant says %r, translator says atomic=%s" % (out.strip(), atomic))
         return
     h, hlog = vlib.compile_harness("h_stop")
@@ -294,7 +294,7 @@ def run(ctx):
                                   dict(out=out[-2000:]))
                 report_races(ctx, reps, "h_stop_tsanlib run <instances> (whole library under TSan)", seen_race, atomic)
             _lap(ctx, "tsan-library")
-        if not atomic and not seen_race:
+        if atomic is False and not seen_race:
             ctx.note("atomic=false but ThreadSanitizer reported no race on a stop flag in this run")
     finally:
         shutil.rmtree(d, ignore_errors=True)
@@ -302,10 +302,11 @@ def run(ctx):
 
 def report_races(ctx, reps, how, seen, atomic):
     for rp in reps:
+        pre = "stop-flag-race" if atomic is False else ("stop-flag-race-despite-atomic" if atomic else "stop-flag-race-declaration-not-recognised")
         if rp["flag_global"]:
-            sig = "stop-flag-race:globalStopFlag"
+            sig = pre + ":globalStopFlag"
         elif rp["flag_local"]:
-            sig = "stop-flag-race:stopFlag"
+            sig = pre + ":stopFlag"
         else:
             sig = "race:" + (rp["frames"][0].split(" ")[0] if rp["frames"] else (rp["location"] or rp["kind"]))
         if sig in seen:
